@@ -1148,3 +1148,41 @@ Proof.
       destruct (IH s1 s' o2 g' fl' Hr Hg' Hf') as (t' & Hin & Hle'); [lia|lia|].
       exists t'. split; [right; exact Hin|lia].
 Qed.
+
+(* ---- the log's GC and a delivery's log write at one instant commute (the operations are atomic under the log's
+   lock; harness/nfrace runs them concurrently on the real log) ---- *)
+Lemma log_exp_later ret rep now : 0 < ret -> now < log_exp ret rep now.
+Proof. intros H. unfold log_exp. destruct (_ && _) eqn:E; [|lia]. apply andb_prop in E. lia. Qed.
+
+Lemma gc_log_commute_entry ret rep now cur F R :
+  0 < ret -> (forall p, cur = Some p -> n_ts p < n_exp p) ->
+  nf_gc now (nf_log ret rep now cur F R) = nf_log ret rep now (nf_gc now cur) F R.
+Proof.
+  intros Hret Hwf. pose proof (log_exp_later ret rep now Hret) as Hl.
+  unfold nf_log, nf_merge, nf_gc. cbn [n_exp n_ts].
+  assert (H1 : log_exp ret rep now <? now = false) by lia. rewrite H1.
+  assert (H2 : log_exp ret rep now <=? now = false) by lia.
+  destruct cur as [p|]; [|cbn [n_exp]; rewrite H2; reflexivity].
+  specialize (Hwf p eq_refl).
+  destruct (n_exp p <=? now) eqn:Hx.
+  - assert (Ht : n_ts p <? now = true) by lia. rewrite Ht. cbn [n_exp]. rewrite H2. reflexivity.
+  - destruct (n_ts p <? now); cbn [n_exp]; [rewrite H2|rewrite Hx]; reflexivity.
+Qed.
+
+(* so the delivered notification's entry is there after a concurrent GC, in either order *)
+Lemma logged_survives_gc ret rep now cur F R :
+  0 < ret -> (forall p, cur = Some p -> n_ts p < n_exp p) ->
+  exists e, nf_gc now (nf_log ret rep now cur F R) = Some e /\ now < n_exp e /\
+            nf_log ret rep now (nf_gc now cur) F R = Some e.
+Proof.
+  intros Hret Hwf. rewrite <- gc_log_commute_entry by assumption.
+  pose proof (log_exp_later ret rep now Hret) as Hl.
+  unfold nf_log, nf_merge, nf_gc. cbn [n_exp n_ts].
+  assert (H1 : log_exp ret rep now <? now = false) by lia. rewrite H1.
+  assert (H2 : log_exp ret rep now <=? now = false) by lia.
+  destruct cur as [p|].
+  - specialize (Hwf p eq_refl). destruct (n_ts p <? now) eqn:Ht; cbn [n_exp].
+    + rewrite H2. eexists. split; [reflexivity|]. split; [cbn; lia|reflexivity].
+    + assert (Hx : n_exp p <=? now = false) by lia. rewrite Hx. eexists. split; [reflexivity|]. split; [lia|reflexivity].
+  - cbn [n_exp]. rewrite H2. eexists. split; [reflexivity|]. split; [cbn; lia|reflexivity].
+Qed.
